@@ -6,6 +6,7 @@ import (
 	"net/url"
 	"os"
 	"path/filepath"
+	"sort"
 	"strconv"
 	"strings"
 
@@ -694,6 +695,14 @@ func c05NamedParams(ctx *Ctx) error {
 		"/multi3": J{"get": J{"operationId": "multi3", "parameters": []interface{}{p("limit", "query", "form", true, J{"type": "integer"}), p("offset", "query", "form", true, J{"type": "integer"}), p("sort", "query", "form", true, str), p("X-Request-Id", "header", "simple", false, str)}, "responses": ok}},
 		"/q1":     J{"get": J{"operationId": "q1", "parameters": []interface{}{p("user_id", "query", "form", true, str), p("item-ids", "query", "form", true, arr), p("type", "query", "form", false, arr)}, "responses": ok}},
 		"/c1":     J{"get": J{"operationId": "c1", "parameters": []interface{}{p("user_id", "cookie", "form", false, str)}, "responses": ok}},
+		// three cookie parameters in one request: one Cookie header with all of them
+		"/c3": J{"get": J{"operationId": "c3", "parameters": []interface{}{p("sid", "cookie", "form", false, str), p("theme", "cookie", "form", false, str), p("n", "cookie", "form", false, J{"type": "integer"})}, "responses": ok}},
+		// optional query parameters next to a form body whose fields have the same names: the parameters are what the query
+		// says (the body is the body)
+		"/f2": J{"post": J{"operationId": "f2", "parameters": []interface{}{
+			J{"name": "limit", "in": "query", "schema": J{"type": "integer"}}, J{"name": "tags", "in": "query", "schema": arr}, J{"name": "q", "in": "query", "schema": str}},
+			"requestBody": J{"required": true, "content": J{"application/x-www-form-urlencoded": J{"schema": J{"type": "object", "properties": J{"limit": J{"type": "integer"}, "tags": J{"type": "string"}, "q": str}}}}},
+			"responses":   ok}},
 	}}
 	type cse struct {
 		fn      string
@@ -713,6 +722,9 @@ func c05NamedParams(ctx *Ctx) error {
 		{"NewMulti3Request", []interface{}{"http://h", J{"limit": 10, "offset": 20, "sort": "asc", "X-Request-Id": "r1"}}, "http://h/multi3?limit=10&offset=20&sort=asc", "", J{"params": J{"Limit": 10, "Offset": 20, "Sort": "asc", "XRequestId": "r1"}}},
 		{"NewQ1Request", []interface{}{"http://h", J{"user_id": "u5", "item-ids": []int{3, 4}, "type": []int{7, 8}}}, "http://h/q1?item-ids=3&item-ids=4&type=7%2C8&user_id=u5", "", nil},
 		{"NewC1Request", []interface{}{"http://h", J{"user_id": "u5"}}, "http://h/c1", "user_id=u5", nil},
+		{"NewC3Request", []interface{}{"http://h", J{"sid": "s1", "theme": "dark", "n": 7}}, "http://h/c3", "n=7; sid=s1; theme=dark", J{"params": J{"Sid": "s1", "Theme": "dark", "N": 7}}},
+		{"NewF2RequestWithFormdataBody", []interface{}{"http://h", J{"tags": []int{3, 4}}, J{"limit": 5, "tags": "9", "q": "body"}}, "http://h/f2?tags=3&tags=4", "", J{"params": J{"Limit": nil, "Tags": []int{3, 4}, "Q": nil}}},
+		{"NewF2RequestWithFormdataBody", []interface{}{"http://h", J{"limit": 1, "q": "query"}, J{"limit": 5, "tags": "9", "q": "body"}}, "http://h/f2?limit=1&q=query", "", J{"params": J{"Limit": 1, "Tags": nil, "Q": "query"}}},
 	}
 	var cfg codegen.Configuration
 	cfg.Generate.Models, cfg.Generate.Client = true, true
@@ -746,7 +758,13 @@ func c05NamedParams(ctx *Ctx) error {
 					got = fmt.Sprint(kv[1])
 				}
 			}
-			if got != c.cookie {
+			// the order of the pairs in a Cookie header carries no meaning
+			pairs := func(x string) string {
+				ps := strings.Split(x, "; ")
+				sort.Strings(ps)
+				return strings.Join(ps, "; ")
+			}
+			if pairs(got) != pairs(c.cookie) {
 				ctx.Res.Violate("named:client-wire:"+c.fn, fmt.Sprintf("%s builds the cookie %q, OAS prescribes %q", c.fn, got, c.cookie), replay)
 				continue
 			}
